@@ -1,6 +1,7 @@
 package main
 
 import (
+	"runtime"
 	"bytes"
 	"context"
 	"fmt"
@@ -132,6 +133,10 @@ func runSolverCtx(parent context.Context, sp solverSpec, file string, timeoutS i
 	if parent.Err() != nil {
 		return SolverResult{Status: "cancelled", Solver: sp.name}
 	}
+	// wall-clock limits are stretched when the machine is oversubscribed (a solver
+	// that shares its core with three other processes gets a quarter of the time):
+	// factor = 1-minute load average / cores, between 1 and 6
+	timeoutS = int(float64(timeoutS)*loadFactor() + 0.5)
 	args := sp.args(file, timeoutS)
 	ctx, cancel := context.WithTimeout(parent, time.Duration(timeoutS+5)*time.Second)
 	defer cancel()
@@ -166,6 +171,34 @@ func runSolverCtx(parent context.Context, sp solverSpec, file string, timeoutS i
 		st = "timeout"
 	}
 	return SolverResult{Status: st, Solver: sp.name, Secs: secs, Output: o}
+}
+
+var loadMu sync.Mutex
+var loadAt time.Time
+var loadF = 1.0
+
+func loadFactor() float64 {
+	loadMu.Lock()
+	defer loadMu.Unlock()
+	if time.Since(loadAt) < 5*time.Second {
+		return loadF
+	}
+	loadAt = time.Now()
+	loadF = 1.0
+	if b, err := os.ReadFile("/proc/loadavg"); err == nil {
+		var l1 float64
+		if _, err := fmt.Sscan(string(b), &l1); err == nil {
+			// our own solvers (up to 14) are part of the load: only the excess counts
+			f := (l1 - 14) / float64(runtime.NumCPU())
+			if f > 1 {
+				loadF = f
+			}
+			if loadF > 6 {
+				loadF = 6
+			}
+		}
+	}
+	return loadF
 }
 
 // solve races the solvers: z3-new first (decides most goals in well under a
